@@ -48,7 +48,7 @@ def main():
         tests = ''
         if a.tests:
           t = subprocess.run('cd %s && /venv/bin/python -m pytest -q -p no:cacheprovider --timeout=900 -q lib/carbon/tests '
-                             '--continue-on-collection-errors 2>&1 | tail -1' % d, shell=True, capture_output=True, text=True)
+                             '--continue-on-collection-errors 2>&1 | grep -E "passed|failed" | tail -1' % d, shell=True, capture_output=True, text=True)
           tests = t.stdout.strip()
           tests = 'tests:' + ('179-pass' if '179 passed' in tests else tests)
         env = dict(os.environ, VERIF_REPO=d)
